@@ -14,6 +14,10 @@ import (
 	"unicode"
 	"unicode/utf8"
 
+	"github.com/agnivade/levenshtein"
+	"golang.org/x/text/cases"
+	"golang.org/x/text/language"
+	"golang.org/x/text/unicode/norm"
 	"golang.org/x/tools/go/ssa"
 )
 
@@ -861,4 +865,74 @@ func callNativeMethod(fr *frame, m nativeMethod, args []value) value {
 		panic(engineErr(fmt.Sprintf("native object %T has no method %s", m.recv.v, m.name)))
 	}
 	return nativeFn(fmt.Sprintf("%T.%s", m.recv.v, m.name), mv.Interface())(fr, args)
+}
+
+// externalGlobalFns builds per-path values of external package-level variables.
+var externalGlobalFns = map[string]func(i *interpreter) value{
+	"context.Canceled":  func(i *interpreter) value { return makeError(i, "context canceled") },
+	"context.DeadlineExceeded": func(i *interpreter) value { return makeError(i, "context deadline exceeded") },
+	"os.ErrNotExist":    func(i *interpreter) value { return makeError(i, "file does not exist") },
+	"golang.org/x/text/language.AmericanEnglish": func(i *interpreter) value { return native{language.AmericanEnglish} },
+}
+
+func init() {
+	I := intrinsics
+	I["(golang.org/x/text/unicode/norm.Form).String"] = func(fr *frame, args []value) value {
+		form := norm.Form(asInt64(args[0]))
+		switch s := args[1].(type) {
+		case string:
+			return form.String(s)
+		case symstr:
+			for _, p := range s.p {
+				switch {
+				case p.k == pkBytes && form.IsNormalString(p.s):
+				case p.k == pkRune && p.n == 1, p.k == pkItoa, p.k == pkUtoa, p.k == pkFtoa:
+				default:
+					panic(pathEnd{kind: Inconclusive, msg: "unicode normalisation of a string with symbolic non-ASCII runes"})
+				}
+			}
+			return s
+		}
+		panic(engineErr("norm.String arg"))
+	}
+	I["golang.org/x/text/cases.Title"] = func(fr *frame, args []value) value {
+		return native{cases.Title(language.AmericanEnglish)}
+	}
+	I["(golang.org/x/text/cases.Caser).String"] = func(fr *frame, args []value) value {
+		c := args[0].(native).v.(cases.Caser)
+		return c.String(strArg(args[1], "cases.Caser.String"))
+	}
+	I["context.Cause"] = func(fr *frame, args []value) value {
+		it := args[0].(iface)
+		if it.t == nil {
+			rtPanic("invalid memory address or nil pointer dereference")
+		}
+		return callMethod(fr, it, "Err")
+	}
+	I["github.com/davecgh/go-spew/spew.Sdump"] = func(fr *frame, args []value) value { return "<spew dump>" }
+	I["github.com/agnivade/levenshtein.ComputeDistance"] = nativeFn("levenshtein.ComputeDistance", levenshtein.ComputeDistance)
+	I["strconv.AppendFloat"] = nativeFn("strconv.AppendFloat", strconv.AppendFloat)
+	I["os.Getenv"] = func(fr *frame, args []value) value { return "" }
+	hostJoin := I["strings.Join"]
+	I["strings.Join"] = func(fr *frame, args []value) value {
+		elems := args[0].([]value)
+		anySym := false
+		for _, e := range elems {
+			if _, ok := e.(symstr); ok {
+				anySym = true
+			}
+		}
+		if !anySym {
+			return hostJoin(fr, args)
+		}
+		sep := args[1]
+		var r value = ""
+		for k, e := range elems {
+			if k > 0 {
+				r = strConcat(r, sep)
+			}
+			r = strConcat(r, e)
+		}
+		return r
+	}
 }
